@@ -15,18 +15,18 @@ package main
 import (
 	"bytes"
 	"context"
-	"net/http"
-	"net/http/httptest"
-	"sync/atomic"
 	"fmt"
 	"math"
 	"net"
+	"net/http"
+	"net/http/httptest"
 	"os"
 	"path/filepath"
 	"reflect"
 	"sort"
 	"strconv"
 	"strings"
+	"sync/atomic"
 	"testing"
 	"time"
 
